@@ -1627,6 +1627,17 @@ def empty_test(atom, key):
     return 'empty' if op == '!=' else 'nonempty'
 
 
+def registered_test(atom, key):
+    """'registered' / 'unregistered' when the atom is a truth test of iv_task_registered(&X) for the task `key`"""
+    (op, lc, rc, l, r) = atom
+    c = strip(l)
+    if key is None or not (isinstance(c, dict) and c.get('k') == 'call' and c.get('callee') == 'iv_task_registered' and rc == '0'):
+        return None
+    if not c.get('args') or chain_of(c['args'][0]) != key or strip(c['args'][0]).get('k') != 'addr':
+        return None
+    return 'registered' if op == '!=' else 'unregistered'
+
+
 def compare_keys(atom, lkey, rkeys):
     """For an atom comparing the field `lkey` with one of the fields `rkeys` (either operand order, also as
     `(a - b) OP 0`): the operator normalised to `lkey OP rkey`, else None."""
